@@ -220,7 +220,7 @@ type nodeCase struct {
 }
 
 // planCase builds case number i of a node's list
-func planCase(i int, rng *rand.Rand, own ownParams, genesis [32]byte, mirror uint32) nodeCase {
+func planCase(i, ni int, rng *rand.Rand, own ownParams, genesis [32]byte, mirror uint32) nodeCase {
 	port := uint16(1024 + rng.Intn(60000))
 	intro := func(class string) (step, verdict, string) {
 		b := introVariant(class, rng, own, genesis, mirror, port)
@@ -245,11 +245,14 @@ func planCase(i int, rng *rand.Rand, own ownParams, genesis [32]byte, mirror uin
 			kind = "disc"
 		}
 		c.Steps = []step{{id, plainBody(id, rng), kind}}
-		if kind == "givp" {
-			// a peer list alone decides nothing; a valid introduction follows
+		if kind != "disc" && (i+ni)%2 == 0 {
+			// a valid introduction follows: a peer list alone decides nothing, and after any
+			// other first message the introduction must come too late
 			s, _, _ := intro("canonical")
 			c.Steps = append(c.Steps, s)
 			c.Class = "canonical"
+		} else if kind == "givp" {
+			c.Steps = append(c.Steps, step{"PING", nil, "other"})
 		}
 	case i < singles:
 		k := i - (len(allTypes) - 1)
@@ -440,7 +443,7 @@ func runNodeLeg(r *vf.Run) {
 					break
 				}
 			}
-			c := planCase(i, rng, own, genesis, mirror)
+			c := planCase(i, ni, rng, own, genesis, mirror)
 			runNodeCase(r, proc, c, ni, i)
 			if !proc.Alive() {
 				break
@@ -587,28 +590,31 @@ func runNodeCase(r *vf.Run, proc *node.Proc, c nodeCase, ni, i int) {
 		}
 		sampleNode(r, c, "introduced; API state introduced", p)
 	case "disconnect":
-		closed := p.WaitClosed(watchdog)
-		if !closed {
-			// logical probe: everything we sent is processed once the PONG arrives
-			from := len(p.Recv)
-			_ = p.Send("PING", nil)
-			pi, ok := p.WaitFor("PONG", from, watchdog)
-			if ok && !hasMsg(p, "DISC", 0, pi) {
-				st := "?"
-				if cs, err := listConns(proc.APIAddr); err == nil {
-					if e := findConn(cs, local); e != nil {
-						st = e.State
-					} else {
-						st = "not listed"
-					}
+		// A PING is sent right away as a probe: once its PONG arrives everything before it has been
+		// processed (one FIFO event loop) and a DISC message initiated by an earlier message would
+		// have been queued before the PONG (one FIFO write queue per connection).
+		_ = p.Send("PING", nil)
+		pi, gotPong := p.WaitFor("PONG", 0, watchdog)
+		if gotPong && !hasMsg(p, "DISC", 0, pi) {
+			st := "?"
+			if cs, err := listConns(proc.APIAddr); err == nil {
+				if e := findConn(cs, local); e != nil {
+					st = e.State
+				} else {
+					st = "not listed"
 				}
-				kind := "no-disconnect-after-non-introduction-message"
-				if strings.HasPrefix(c.Why, "invalid introduction") {
-					kind = "invalid-introduction-accepted"
-				}
-				r.Violation(kind, attrs("observed", "PONG without any DISC queued before it", "api_state", st), witness(p))
-				return
 			}
+			kind := "no-disconnect-after-non-introduction-message"
+			if strings.HasPrefix(c.Why, "invalid introduction") {
+				kind = "invalid-introduction-accepted"
+			}
+			r.Violation(kind, attrs("observed", "PONG without any DISC queued before it", "api_state", st, "decider", strings.Fields(c.Why)[0]), witness(p))
+			return
+		}
+		if gotPong {
+			r.Count("node.disconnect.pong-after-DISC", 1)
+		}
+		if !p.WaitClosed(watchdog) {
 			r.Inconclusive("watchdog: connection neither closed nor provably alive (" + c.Shape + ")")
 			return
 		}
